@@ -189,6 +189,7 @@ def check_case(case) -> CaseResult:
     log = [e for o in run.steps for e in o.log]
     # d values sent, in order
     dvals = [op[3]["d"] for op in history if op[0] == "sendp"]
+    dmap = {op[2]: op[3]["d"] for op in history if op[0] == "sendp"}
     set_tids = {ti.tid for ti in idx.trans.values() if ti.family == "on" and ti.key == "SET"}
     timers = {sid: [t for t in tis if t.family == "after"] for sid, tis in idx.by_state.items()}
     # ---- pass 1: slow intervals, stop time
@@ -246,7 +247,7 @@ def check_case(case) -> CaseResult:
             acts_open[a["state"]] = a
         for a in list(acts_open.values()):
             if any(r["state"] == a["state"] or r["state"].startswith(a["state"] + ".") for r in pend_exit):
-                a.setdefault("epochs", []).append(t_abort)
+                a.setdefault("epochs", []).append((t_abort, cur_d))   # a re-armed computed delay is resolved anew
                 if timers.get(a["state"]):
                     nontrivial = True
         pend_exit.clear()
@@ -262,9 +263,10 @@ def check_case(case) -> CaseResult:
                 cur_recv = ("after", delay_key, sid, e[3], acts_open.get(sid))
         elif e[0] == "act":
             name, vt = e[1], e[5]
-            if name in set_tids and nset < len(dvals):
-                cur_d = dvals[nset]
-                nset += 1
+            if name in set_tids:
+                # the value this SET carries (by payload seq: an unhandled SET runs no marker, so
+                # counting markers would pair the wrong payload with the next handled one)
+                cur_d = dmap.get(e[3], cur_d)
             if name in idx.entry_marker:
                 s = idx.entry_marker[name]
                 a = {"state": s, "t_in": vt, "t_out": None, "d": cur_d, "fired": {}}
@@ -305,7 +307,8 @@ def check_case(case) -> CaseResult:
             D_ = _delay_ms(spec, ti.key, a["d"]) / 1000.0
             recv_t = cur_recv[3] if cur_recv and cur_recv[0] == "after" else t
             elapsed = recv_t - a["t_in"]
-            if elapsed < D_ - EPS:
+            rearmed_ok = any(e2 + _delay_ms(spec, ti.key, d2) / 1000.0 - EPS <= recv_t for e2, d2 in a.get("epochs", []))
+            if elapsed < D_ - EPS and not rearmed_ok:
                 # which shape? expiry of an earlier activation dequeued after leave+re-enter
                 prior = [h for h in history_acts if h["state"] == sid and h is not a and h["t_out"] is not None
                          and abs((h["t_in"] + _delay_ms(spec, ti.key, h["d"]) / 1000.0) - recv_t) < 1.0]
@@ -314,13 +317,15 @@ def check_case(case) -> CaseResult:
                             {"state": sid, "timer": str(ti.key), "delay_s": D_, "t_in": a["t_in"], "fired_at": recv_t, "elapsed": round(elapsed, 6)})
                 continue
             k = str(ti.key) + ":" + str(ti.index)
-            epochs = [a["t_in"]] + a.get("epochs", [])
+            epochs = [a["t_in"] + D_ - D_] + [e2 + _delay_ms(spec, ti.key, d2) / 1000.0 - D_ for e2, d2 in a.get("epochs", [])]
+            # (each origin is shifted so that origin + D_ is that origin's own deadline)
             prev = a["fired"].get(k, [])
             a["fired"][k] = prev + [recv_t]
             if prev:
                 # a second firing in one activation is admissible only for a timer re-armed by a
                 # rollback that happened after the previous firing
-                ok2 = any(e2 >= prev[-1] - EPS and e2 + D_ - EPS <= recv_t <= busy_end(e2 + D_) + EPS for e2 in epochs[1:])
+                ok2 = any(t2 >= prev[-1] - EPS and e2 + D_ - EPS <= recv_t <= busy_end(e2 + D_) + EPS
+                          for e2, (t2, _d2) in zip(epochs[1:], a.get("epochs", [])))
                 if not ok2:
                     res.violate(f"{engine}|after-fired-twice-in-one-activation" + ("|after-rollback" if len(epochs) > 1 else ""),
                                 {"state": sid, "timer": str(ti.key), "fired_at": a["fired"][k], "epochs": epochs})
@@ -341,7 +346,7 @@ def check_case(case) -> CaseResult:
             if t.guard is not None and t.guard.get("k") == "const" and not t.guard["val"]:
                 continue
             D_ = _delay_ms(spec, t.key, a["d"]) / 1000.0
-            due = max([a["t_in"]] + a.get("epochs", [])) + D_
+            due = max([a["t_in"] + D_] + [e2 + _delay_ms(spec, t.key, d2) / 1000.0 for e2, d2 in a.get("epochs", [])])
             lim = busy_end(due)
             end = a["t_out"] if a["t_out"] is not None else horizon
             if run.steps[-1].status not in ("running", "stopped") and a["t_out"] is None:
